@@ -312,8 +312,8 @@ def _check_stack_args(arrays, keys=None):
     """
     # convert dictionary to sequence + keys
     if isinstance(arrays, dict):
-        if keys is None: keys = arrays.keys()
-        arrays = arrays.values()
+        if keys is None: keys = list(arrays.keys())
+        arrays = [arrays[k] for k in keys]
         
     # make sure the result is a sequence
     if type(arrays) not in (list, tuple):
